@@ -54,6 +54,7 @@ Candidates(a) ==
     \cup {Node("conv", <<p>>, 0, TRUE, FALSE) : p \in NF(a)}
     \cup {Node("lin", <<p>>, w, FALSE, e) : p \in T(a) \ NF(a), w \in Widths, e \in Excl}
     \cup {Node("relu", <<p>>, 0, FALSE, FALSE) : p \in T(a) \ {0}}
+    \cup (IF Extras THEN {Node("sig", <<p>>, 0, FALSE, FALSE) : p \in T(a) \ {0}} ELSE {})
     \cup {Node("pool", <<p>>, 0, FALSE, FALSE) : p \in {t \in NF(a) \ {0} : Sp(a, t) >= 2 /\ (Dim = 1 \/ SpW(a, t) >= 2)}}
     \cup {Node("flat", <<p>>, 0, FALSE, FALSE) : p \in NF(a)}
     \cup (IF Dim = 1 /\ Extras THEN {[Node("gsq", <<p>>, 0, FALSE, FALSE) EXCEPT !.d = dd] : p \in NF(a) \ {0}, dd \in {2, -1}} ELSE {})
@@ -98,6 +99,8 @@ InvShapeConsistent == Masked => ShapeConsistent(arch, f)
 InvAtLeastOne      == Masked => \A n \in SearchLayers(arch) : ExpOut(arch, f, n) >= 1 /\ ExpIn(arch, f, n) >= 1
 InvFrozenFull      == Masked => \A n \in SearchLayers(arch) :
                           Frozen(arch, MaskerSite(arch, n)) => ExpOut(arch, f, n) = Ch(arch, n)
+\* C01: pruned channels reach every consumer as exact zeros
+InvZeroPreserved   == Masked => ZeroPreservedM(arch, MOf(arch, f))
 \* C08: the network output keeps its original width
 InvOutputFull      == Masked => Count(Act(arch, f, N(arch))) = Ch(arch, N(arch))
 (* ---- C04: what PIT charges (told inputs, own alive outputs) = cost of the exported layers ---- *)
